@@ -550,7 +550,14 @@ public:
       crab::CrabStats::count("Fixpo.join_predecessors");
       crab::ScopedCrabStats __st__("Fixpo.join_predecessors");
       for (basic_block_label_t prev : prev_nodes) {
-        if (!(get_nesting(prev) > cycle_nesting)) {
+        // a predecessor that is unreachable from the entry is not in
+        // the wto (and its post is bottom)
+        boost::optional<wto_nesting_t> prev_nesting =
+            m_iterator->m_wto.nesting(prev);
+        if (!prev_nesting) {
+          continue;
+        }
+        if (!(*prev_nesting > cycle_nesting)) {
           pre |= m_iterator->get_post(prev);
         }
       }
